@@ -82,3 +82,75 @@ package badger
 //@   light
 //@   assert[bloom-hash] before call DoesNotHave : opt.prefixIsKey && arg1 == ret(Hash#1)
 //@   assert[hash-of-prefix] before call Hash#1 : arg0 == opt.Prefix
+
+// ---- write validation and size accounting (C28) ----
+
+//@ func (*DB).valueThreshold
+//@   props C28 C06
+//@   requires db.threshold != nil
+//@   ensures result == db.threshold.valueThreshold.v
+
+//@ func (*lockedKeys).has
+//@   props C28
+//@   ensures[member] result <==> key in lk.keys
+//@   assigns held(lk.RWMutex)
+
+//@ func (*DB).isBanned
+//@   props C28
+//@   requires db.bannedNamespaces != nil
+//@   domain db.opt.NamespaceOffset < 1<<40
+//@   ensures[off] db.opt.NamespaceOffset < 0 ==> result == nil
+//@   ensures[short] len(key) <= db.opt.NamespaceOffset+8 ==> result == nil
+//@   ensures[exact] db.opt.NamespaceOffset >= 0 && len(key) > db.opt.NamespaceOffset+8 ==> (result == ErrBannedKey <==> be64(key, db.opt.NamespaceOffset) in db.bannedNamespaces.keys)
+//@   ensures[only] result == nil || result == ErrBannedKey
+//@   assigns held(db.bannedNamespaces.RWMutex)
+
+// est: the size the writer will account for an entry (inline value, or a 12-byte value
+// pointer), with the threshold the entry has cached.
+//@ spec est(e *Entry) int64 = int64(len(e.Value)) < e.valThreshold ? int64(len(e.Key)) + int64(len(e.Value)) + 2 : int64(len(e.Key)) + 14
+
+//@ func (*Txn).checkSize
+//@   props C28
+//@   requires txn.db != nil && e != nil && txn.db.threshold != nil
+//@   ensures[accept] result == nil ==> txn.count == old(txn.count)+1 && txn.size == old(txn.size) + est(e) + 10
+//@   ensures[exact] result == nil <==> (old(txn.count)+1 < txn.db.opt.maxBatchCount && old(txn.size) + est(e) + 10 < txn.db.opt.maxBatchSize)
+//@   ensures[reject] result != nil ==> result == ErrTxnTooBig && txn.count == old(txn.count) && txn.size == old(txn.size)
+//@   ensures[cached] e.valThreshold == (old(e.valThreshold) == 0 ? txn.db.threshold.valueThreshold.v : old(e.valThreshold))
+//@   assigns txn.count, txn.size, e.valThreshold
+
+//@ func exceedsSize
+//@   props C28
+//@   ensures[error] result != nil && result != ErrTxnTooBig && result != ErrBannedKey && result != ErrEmptyKey && result != ErrInvalidKey
+
+//@ constglobal badgerPrefix "!badger!"
+
+// thr: the threshold an entry will have cached after its size was estimated.
+//@ spec thr(txn *Txn, e *Entry) int64 = e.valThreshold == 0 ? txn.db.threshold.valueThreshold.v : e.valThreshold
+//@ spec estWith(e *Entry, t int64) int64 = int64(len(e.Value)) < t ? int64(len(e.Key)) + int64(len(e.Value)) + 2 : int64(len(e.Key)) + 14
+//@ spec validKV(txn *Txn, e *Entry) bool = len(e.Key) != 0 && !hasPrefix(e.Key, badgerPrefix) && len(e.Key) <= 65000 && int64(len(e.Value)) <= txn.db.opt.ValueLogFileSize && !(txn.db.opt.InMemory && int64(len(e.Value)) > txn.db.threshold.valueThreshold.v)
+//@ spec banned(db *DB, key []byte) bool = db.opt.NamespaceOffset >= 0 && len(key) > db.opt.NamespaceOffset+8 && be64(key, db.opt.NamespaceOffset) in db.bannedNamespaces.keys
+//@ spec fits(txn *Txn, e *Entry) bool = txn.count+1 < txn.db.opt.maxBatchCount && txn.size + estWith(e, thr(txn, e)) + 10 < txn.db.opt.maxBatchSize
+
+// Validation is deterministic, in this order, and a rejected write leaves the transaction
+// as it was (C28); an accepted write is recorded under its key, replacing an earlier pending
+// write of the same key, which is kept as a duplicate only if its version differs (C27, C04).
+//@ func (*Txn).modify
+//@   props C28 C27 C04
+//@   requires txn.db != nil && e != nil && txn.db.threshold != nil && txn.db.bannedNamespaces != nil
+//@   requires txn.update ==> txn.pendingWrites != nil && allnonnil(txn.pendingWrites) && (txn.db.opt.DetectConflicts ==> txn.conflictKeys != nil)
+//@   domain txn.db.opt.NamespaceOffset < 1<<40
+//@   ensures[readonly] !txn.update ==> result == ErrReadOnlyTxn
+//@   ensures[discarded] txn.update && txn.discarded ==> result == ErrDiscardedTxn
+//@   ensures[empty-key] txn.update && !txn.discarded && len(e.Key) == 0 ==> result == ErrEmptyKey
+//@   ensures[reserved-key] txn.update && !txn.discarded && len(e.Key) != 0 && hasPrefix(e.Key, badgerPrefix) ==> result == ErrInvalidKey
+//@   ensures[invalid] txn.update && !txn.discarded && !old(validKV(txn, e)) ==> result != nil
+//@   ensures[banned] txn.update && !txn.discarded && old(validKV(txn, e)) && old(banned(txn.db, e.Key)) ==> result == ErrBannedKey
+//@   ensures[too-big] txn.update && !txn.discarded && old(validKV(txn, e)) && !old(banned(txn.db, e.Key)) && !old(fits(txn, e)) ==> result == ErrTxnTooBig
+//@   ensures[accepted] txn.update && !txn.discarded && old(validKV(txn, e)) && !old(banned(txn.db, e.Key)) && old(fits(txn, e)) ==> result == nil
+//@   ensures[unchanged-on-error] result != nil ==> txn.count == old(txn.count) && txn.size == old(txn.size) && txn.duplicateWrites == old(txn.duplicateWrites) && unchanged(txn.pendingWrites) && unchanged(txn.conflictKeys)
+//@   ensures[recorded] result == nil ==> txn.pendingWrites[string(e.Key)] == e && txn.count == old(txn.count)+1 && txn.size == old(txn.size) + est(e) + 10
+//@   ensures[nonnil-kept] txn.update ==> allnonnil(txn.pendingWrites)
+//@   ensures[fingerprint] result == nil && txn.db.opt.DetectConflicts ==> memHash(e.Key) in txn.conflictKeys
+//@   ensures[duplicate-kept] result == nil && old(string(e.Key) in txn.pendingWrites) && old(txn.pendingWrites[string(e.Key)].version) != e.version ==> len(txn.duplicateWrites) == old(len(txn.duplicateWrites))+1 && txn.duplicateWrites[old(len(txn.duplicateWrites))] == old(txn.pendingWrites[string(e.Key)])
+//@   ensures[same-version-replaced] result == nil && !(old(string(e.Key) in txn.pendingWrites) && old(txn.pendingWrites[string(e.Key)].version) != e.version) ==> txn.duplicateWrites == old(txn.duplicateWrites)
+//@   assigns txn.count, txn.size, e.valThreshold, txn.duplicateWrites, txn.duplicateWrites[len(txn.duplicateWrites):cap(txn.duplicateWrites)], mapof(txn.pendingWrites), mapof(txn.conflictKeys), held(txn.db.bannedNamespaces.RWMutex)
